@@ -770,3 +770,100 @@ func init() {
 			return obs
 		}})
 }
+
+func init() {
+	register(&Rule{ID: "CONFINE.context-from-frame", Floor: 2,
+		Doc: "Runtime.sourceContext — the loading context load-file hands to the source library — is computed from the top call-stack frame only: every value it returns is a sourceContext literal whose name and location are the File and Path of that frame's Source (or of the synthetic native location when the frame has none), or empty strings when there is no frame; no other runtime state (a `currently loading` register) takes part, so a relative location resolves against the file that CONTAINS the load-file call, whichever file's load is in progress",
+		Run: func(c *Ctx) []Obligation {
+			fn, fd, pkg := c.LookupFunc("lisp.(*Runtime).sourceContext")
+			topM := c.LookupMethod("lisp.CallStack.Top")
+			if fn == nil || topM == nil {
+				return []Obligation{anchorMissing("CONFINE.context-from-frame", "Runtime.sourceContext / CallStack.Top")}
+			}
+			u := FuncUnit{fn, fd, pkg}
+			info := pkg.TypesInfo
+			// top := r.Stack.Top()
+			var topObj types.Object
+			ast.Inspect(fd.Body, func(n ast.Node) bool {
+				if as, ok := n.(*ast.AssignStmt); ok && len(as.Lhs) == 1 && len(as.Rhs) == 1 {
+					if ce, ok := ast.Unparen(as.Rhs[0]).(*ast.CallExpr); ok && originOf(Callee(info, ce)) == topM {
+						topObj = identObj(info, as.Lhs[0])
+					}
+				}
+				return true
+			})
+			// src locals: assigned from top.Source or &<local from nativeLocation()>
+			srcOK := map[types.Object]bool{}
+			natLoc := map[types.Object]bool{}
+			ast.Inspect(fd.Body, func(n ast.Node) bool {
+				as, ok := n.(*ast.AssignStmt)
+				if !ok || len(as.Lhs) != len(as.Rhs) {
+					return true
+				}
+				for i, r := range as.Rhs {
+					r = ast.Unparen(r)
+					lo := identObj(info, as.Lhs[i])
+					if lo == nil {
+						continue
+					}
+					if ce, ok := r.(*ast.CallExpr); ok {
+						if f := Callee(info, ce); f != nil && f.Name() == "nativeLocation" {
+							natLoc[lo] = true
+						}
+					}
+					if se, ok := r.(*ast.SelectorExpr); ok && se.Sel.Name == "Source" && topObj != nil && identObj(info, se.X) == topObj {
+						srcOK[lo] = true
+					}
+					if ue, ok := r.(*ast.UnaryExpr); ok && ue.Op == token.AND {
+						if o := identObj(info, ue.X); o != nil && natLoc[o] {
+							srcOK[lo] = true
+						}
+					}
+				}
+				return true
+			})
+			var obs []Obligation
+			ord := &ordinal{}
+			for _, rs := range returnsOf(fd.Body) {
+				if len(rs.Results) != 1 {
+					continue
+				}
+				construct := ord.next("context returned")
+				e := ast.Unparen(rs.Results[0])
+				if ue, ok := e.(*ast.UnaryExpr); ok && ue.Op == token.AND {
+					e = ast.Unparen(ue.X)
+				}
+				cl, ok := e.(*ast.CompositeLit)
+				if !ok {
+					obs = append(obs, mkOb(c, "CONFINE.context-from-frame", u, construct, rs, Violated, "sourceContext returns `"+types.ExprString(rs.Results[0])+"`, not a context built from the top frame", true))
+					continue
+				}
+				bad := ""
+				for _, el := range cl.Elts {
+					v := el
+					if kv, ok := el.(*ast.KeyValueExpr); ok {
+						v = kv.Value
+					}
+					v = ast.Unparen(v)
+					if s, ok := constStringVal(info, v); ok && s == "" {
+						continue
+					}
+					if se, ok := v.(*ast.SelectorExpr); ok && (se.Sel.Name == "File" || se.Sel.Name == "Path") {
+						if o := identObj(info, se.X); o != nil && srcOK[o] {
+							continue
+						}
+					}
+					bad = types.ExprString(v)
+				}
+				if bad == "" {
+					obs = append(obs, mkOb(c, "CONFINE.context-from-frame", u, construct, rs, Proved, "name and location come from the top frame's Source (or are empty)", true))
+				} else {
+					obs = append(obs, mkOb(c, "CONFINE.context-from-frame", u, construct, rs, Violated, "the loading context carries `"+bad+"`, which is not the File/Path of the top call-stack frame's Source: a load-file inside a function defined in another directory resolves its relative location against the wrong file", true))
+				}
+			}
+			if topObj == nil {
+				obs = append(obs, mkOb(c, "CONFINE.context-from-frame", u, "top frame", fd, Violated, "sourceContext no longer reads the top call-stack frame", true))
+			}
+			return obs
+		}})
+}
